@@ -16,6 +16,7 @@ import pre_checks
 import hooks_checks
 import union_checks
 import twin_checks
+import recwarm_checks
 
 CORE_A = ["Model/Base.v", "Model/Dispatch.v", "Model/Routing.v", "Model/DispLane.v", "Gen/DispatchSrc.v", "Gen/ConvSrc.v",
           "Proofs/DispatchProofs.v", "Proofs/RoutingProofs.v", "Proofs/SrcObligations.v"]
@@ -32,6 +33,7 @@ def _c08(v, b, tier):
     n = 90 * SIZES[tier]
     disp_checks.check_c08(v, b.t1_summary, n, 22 if tier == "quick" else 60)
     twin_checks.check_c08_twin(v, 150 * SIZES[tier])
+    recwarm_checks.check_recwarm(v, "C08", 50 * SIZES[tier])
 
 
 def _c18(v, b, tier):
@@ -79,6 +81,7 @@ def _c12(v, b, tier):
 
 def _c19(v, b, tier):
     thr_checks.check_c19(v, b.t1_summary, 70 * SIZES[tier], 6 * SIZES[tier])
+    recwarm_checks.check_recwarm_threads(v, 36 * min(SIZES[tier], 4))
 
 
 def _c14(v, b, tier):
